@@ -178,6 +178,47 @@ theorem insertZc_step (s : LW) (hi : s.inv) (h0 : s.win.idx = 0) (payload : Byte
   · simp only [insertZc, LW.avail, Win.cap, resize_length, h0]
     unfold LW.inv Win.cap at hi; omega
 
+theorem put_step (s : LW) (hi : s.inv) (hx : s.win.idx ≤ s.win.cap) (bs : Bytes) (h : bs.length ≤ s.avail) :
+    ∃ s', liftW s (put s.win bs) = .ok s' ∧ LStep s s' bs bs.length 0 := by
+  have hroom : s.win.idx + bs.length ≤ s.win.cap := by unfold LW.avail at h; omega
+  obtain ⟨w, hw, e⟩ := put_ok s.win bs hroom
+  have st := setWin_step s hi w _ e hroom 0
+  exact ⟨{ s with win := w }, by simp [liftW, hw], by simpa using st⟩
+
+theorem strWrite_ok (takes : Bool) (s : LW) (bs : Bytes) (hi : s.inv) (hx : s.win.idx ≤ s.win.cap)
+    (h : (if takes then 4 else 4 + bs.length) ≤ s.avail) :
+    ∃ s', strWrite takes s bs = .ok s' ∧
+      LStep s s' (be 4 (toS 4 bs.length) ++ bs) (if takes then 4 else 4 + bs.length) (if takes then bs.length else 0) := by
+  have hroom : ∀ n, n ≤ s.avail → s.win.idx + n ≤ s.win.cap := by intro n hn; unfold LW.avail at hn; omega
+  have hpre : (be 4 (toS 4 bs.length)).length = 4 := be_length _ _
+  cases takes with
+  | true =>
+    simp only [if_true] at h ⊢
+    obtain ⟨w, hw, e⟩ := put_ok s.win (be 4 (toS 4 bs.length)) (by rw [hpre]; exact hroom _ h)
+    have st1 := setWin_step s hi w _ e (by rw [hpre]; exact hroom _ h) bs.length
+    obtain ⟨s2, h2, st2, h20, _⟩ := adv_step { s with win := w, zlen := s.zlen + bs.length } st1.inv st1.ok
+    have st3 := insertZc_step s2 st2.inv h20 bs
+    refine ⟨insertZc s2 bs, ?_, ?_⟩
+    · simp only [strWrite, hw, if_true]
+      have : advanceMut { s with win := w, zlen := s.zlen + bs.length } w.idx = .ok s2 := h2
+      simp [this]
+    · have := (st1.trans st2).trans st3
+      simpa [hpre] using this
+  | false =>
+    simp only [Bool.false_eq_true, if_false] at h ⊢
+    obtain ⟨w, hw, e⟩ := put_ok s.win (be 4 (toS 4 bs.length)) (by rw [hpre]; have := hroom _ h; omega)
+    have st1 := setWin_step s hi w _ e (by rw [hpre]; have := hroom _ h; omega) 0
+    have hav1 : bs.length ≤ ({ s with win := w, zlen := s.zlen + 0 } : LW).avail := by
+      simp only [LW.avail, Win.cap, e.len, e.idx, hpre]
+      unfold LW.avail Win.cap at h
+      omega
+    obtain ⟨s2, h2, st2⟩ := put_step { s with win := w, zlen := s.zlen + 0 } st1.inv st1.ok bs hav1
+    refine ⟨s2, ?_, ?_⟩
+    · simp only [strWrite, hw, Bool.false_eq_true, if_false]
+      simpa [liftW] using h2
+    · have := st1.trans st2
+      simpa [hpre] using this
+
 open Linked in
 theorem ulwOp_ok (zc : Bool) (thr : Nat) (api : StrApi) (s : LW) (o : Op) (hwf : o.wf = true)
     (hi : s.inv) (hx : s.win.idx ≤ s.win.cap) (h : copyLen zc thr api o ≤ s.avail) :
@@ -194,57 +235,30 @@ theorem ulwOp_ok (zc : Bool) (thr : Nat) (api : StrApi) (s : LW) (o : Op) (hwf :
     simpa [Binary.wOp, be, be_length, copyLen, Len.binOp, zcLen, Binary.i] using this
   by_cases hm : ∃ name mt seq, o = .msgBegin name mt seq
   · obtain ⟨name, mt, seq, rfl⟩ := hm
-    have hs := chunks_sum (.msgBegin name mt seq) hwf
     simp only [copyLen] at h
-    obtain ⟨w, hw, e⟩ := putAll_ok (chunks (.msgBegin name mt seq)) s.win (by rw [hs]; exact hroom _ h)
-    rw [chunks_flatten] at e
-    have hl := Len.binOp_eq .be (.msgBegin name mt seq) hwf
-    have st1 := setWin_step s hi w _ e (by rw [← hl]; exact hroom _ h) 0
-    obtain ⟨s2, h2, st2, _, _⟩ := adv_step { s with win := w, zlen := s.zlen + 0 } st1.inv st1.ok
-    refine ⟨s2, by simpa [ulwOp, hw] using h2, ?_⟩
-    have := st1.trans st2
-    simpa [copyLen, zcLen, ← hl] using this
+    generalize htk : takesZc false zc thr StrApi.faststr name.length = takes at h
+    have hv : (encFixed .be 4 ((0x80010000 ||| mt) % 2 ^ 32)).length = 4 := encFixed_length _ _ _
+    obtain ⟨s1, h1, st1⟩ := put_step s hi hx (encFixed .be 4 ((0x80010000 ||| mt) % 2 ^ 32)) (by rw [hv]; omega)
+    obtain ⟨s2, h2, st2⟩ := strWrite_ok takes s1 name st1.inv st1.ok (by have := st1.avail; rw [hv] at this; omega)
+    obtain ⟨s3, h3, st3⟩ := put_step s2 st2.inv st2.ok (be 4 seq) (by
+      have a := st1.avail; have b := st2.avail; rw [hv] at a; rw [be_length]; omega)
+    obtain ⟨s4, h4, st4, _, _⟩ := adv_step s3 st3.inv st3.ok
+    refine ⟨s4, ?_, ?_⟩
+    · simp only [ulwOp, htk, h1, h2, h3]; exact h4
+    · have := ((st1.trans st2).trans st3).trans st4
+      simp only [hv, be_length] at this
+      simpa [Binary.wOp, be, copyLen, zcLen, htk, List.append_assoc] using this
   by_cases hb : ∃ bs, o = .bytes bs
   · obtain ⟨bs, rfl⟩ := hb
     simp only [copyLen] at h
-    have hpre : (be 4 (toS 4 bs.length)).length = 4 := be_length _ _
-    have hpre' : (Binary.i .be 4 (toS 4 bs.length)).length = 4 := be_length _ _
-    by_cases hz : takesZc false zc thr api bs.length = true
-    · simp only [hz, if_true] at h
-      obtain ⟨w, hw, e⟩ := put_ok s.win (be 4 (toS 4 bs.length)) (by rw [hpre]; exact hroom _ h)
-      have st1 := setWin_step s hi w _ e (by rw [hpre]; exact hroom _ h) bs.length
-      obtain ⟨s2, h2, st2, h20, _⟩ := adv_step { s with win := w, zlen := s.zlen + bs.length } st1.inv st1.ok
-      have st3 := insertZc_step s2 st2.inv h20 bs
-      refine ⟨insertZc s2 bs, ?_, ?_⟩
-      · simp only [ulwOp, hw, hz, if_true]
-        have : advanceMut { s with win := w, zlen := s.zlen + bs.length } w.idx = .ok s2 := h2
-        simp [this]
-      · have := (st1.trans st2).trans st3
-        simpa [copyLen, zcLen, hz, hpre', Binary.wOp, be] using this
-    · have hz' : takesZc false zc thr api bs.length = false := by simpa using hz
-      simp only [hz', Bool.false_eq_true, if_false] at h
-      obtain ⟨w, hw, e⟩ := put_ok s.win (be 4 (toS 4 bs.length)) (by rw [hpre]; have := hroom _ h; omega)
-      have st1 := setWin_step s hi w _ e (by rw [hpre]; have := hroom _ h; omega) 0
-      have hav1 : bs.length ≤ ({ s with win := w, zlen := s.zlen + 0 } : LW).avail := by
-        have := st1.avail
-        simp only [hpre] at this
-        simp only [LW.avail, Win.cap, e.len, e.idx, hpre] at this ⊢
-        unfold LW.avail Win.cap at h
-        omega
-      obtain ⟨w2, hw2, e2⟩ := put_ok w bs (by
-        have := st1.ok; simp only [LW.avail, Win.cap] at hav1 this ⊢; omega)
-      have st2 := setWin_step { s with win := w, zlen := s.zlen + 0 } st1.inv w2 _ e2 (by
-        have := st1.ok; simp only [LW.avail, Win.cap] at hav1 this ⊢; omega) 0
-      refine ⟨{ s with win := w2 }, ?_, ?_⟩
-      · simp [ulwOp, hw, hz', liftW, hw2]
-      · have := st1.trans st2
-        simpa [copyLen, zcLen, hz', hpre', Binary.wOp, be] using this
+    obtain ⟨s', h1, st⟩ := strWrite_ok (takesZc false zc thr api bs.length) s bs hi hx h
+    exact ⟨s', by simpa [ulwOp] using h1, by simpa [copyLen, zcLen, Binary.wOp, be] using st⟩
   · have hu : ulwOp zc thr api s o = liftW s (putAll s.win (chunks o)) := by
       cases o <;> first | rfl | (exfalso; exact hf ⟨_, _, rfl⟩) | (exfalso; exact hm ⟨_, _, _, rfl⟩) | (exfalso; exact hb ⟨_, rfl⟩)
     have hc : copyLen zc thr api o = Len.binOp o := by
-      cases o <;> first | rfl | (exfalso; exact hb ⟨_, rfl⟩)
+      cases o <;> first | rfl | (exfalso; exact hb ⟨_, rfl⟩) | (exfalso; exact hm ⟨_, _, _, rfl⟩)
     have hzz : zcLen zc thr api o = 0 := by
-      cases o <;> first | rfl | (exfalso; exact hb ⟨_, rfl⟩)
+      cases o <;> first | rfl | (exfalso; exact hb ⟨_, rfl⟩) | (exfalso; exact hm ⟨_, _, _, rfl⟩)
     rw [hc] at h
     obtain ⟨w, hw, e⟩ := putAll_ok (chunks o) s.win (by rw [chunks_sum o hwf]; exact hroom _ h)
     rw [chunks_flatten] at e
